@@ -153,6 +153,23 @@ def judge_malformed(ctx, case):
     kind = rpath.classify(s)
     if kind[0] != "malformed":
         return None            # generator produced something that denotes a path after all
+    # the well-formed TWINS of the malformed string are looked up first (its lower / upper / case-folded / NFKC / stripped
+    # spellings, look-alike markers replaced by real ones) - on this wallet and on another one: whatever remembers requests
+    # under a normalised key must not answer for the malformed spelling afterwards
+    import unicodedata
+    twins = []
+    for t in (s.lower(), s.upper(), s.casefold(), unicodedata.normalize("NFKC", s), s.strip(), s.replace(" ", ""),
+              s.replace("H", "h"), s.replace("\u2019", "'").replace("\u2032", "'").replace("\u02b9", "'").replace("\u00b4", "'")):
+        if t != s and t not in twins and rpath.classify(t)[0] != "malformed":
+            twins.append(t)
+    if twins:
+        w2, _m2 = wallet(case["seed"][::-1], not case["testnet"])
+        for t in twins[:4]:
+            for wal in (w, w2):
+                try:
+                    wal.by_path(t)
+                except Exception:  # noqa
+                    pass
     ok, obs, outcome = refused(lambda: bridge.node_obs(w.by_path(s)))       # (stable refusal: asked three times in a row)
     return ctx.judge("malformed", ok, case, "raise (%s)" % kind[1], obs, cls="mal|%s|%s" % (case["fault"], kind[1]),
                      outcome=outcome, mech="C17.malformed.accepted")
